@@ -107,8 +107,73 @@ def code_value(consts, name):
     return o.fields[(None, 0)].v
 
 
+def quinn_fingerprint():
+    h = hashlib.sha256()
+    for root in ("/repo/h3-quinn/src", "/repo/h3/src"):
+        for dp, _, files in sorted(os.walk(root)):
+            for fn in sorted(files):
+                if fn.endswith(".rs"):
+                    p = os.path.join(dp, fn)
+                    h.update(p.encode())
+                    h.update(open(p, "rb").read())
+    for f in ("/repo/h3-quinn/Cargo.toml", "/repo/h3/Cargo.toml", "/repo/Cargo.toml"):
+        if os.path.exists(f):
+            h.update(open(f, "rb").read())
+    return h.hexdigest()
+
+
+def dump_mir_quinn():
+    """MIR of the h3-quinn adapter, from a throw-away copy of /repo's workspace (current working tree)."""
+    os.makedirs(DUMP_DIR, exist_ok=True)
+    fp = quinn_fingerprint()
+    out = os.path.join(DUMP_DIR, "h3-quinn.mir")
+    stamp = out + ".fp"
+    if os.path.exists(out) and os.path.exists(stamp) and open(stamp).read() == fp:
+        return out, 0.0
+    t0 = time.time()
+    ws = os.path.join(DUMP_DIR, "ws")
+    if os.path.exists(ws):
+        shutil.rmtree(ws)
+    shutil.copytree("/repo", ws, ignore=shutil.ignore_patterns("target", ".git", "fuzz"))
+    env = dict(os.environ)
+    env["CARGO_NET_OFFLINE"] = "true"
+    env.pop("RUSTUP_TOOLCHAIN", None)
+    env.pop("RUSTFLAGS", None)
+    cmd = ["cargo", "+nightly", "rustc", "--offline", "-p", "h3-quinn", "--lib",
+           "--target-dir", os.path.join(DUMP_DIR, "target-ws"), "--", "-Zunpretty=mir", "-C", "overflow-checks=on"]
+    p = subprocess.run(cmd, cwd=ws, env=env, capture_output=True, text=True, timeout=1800)
+    if p.returncode != 0 or "fn " not in p.stdout:
+        raise Inconclusive("MIR dump of h3-quinn failed: " + p.stderr[-600:])
+    open(out, "w").write(p.stdout)
+    open(stamp, "w").write(fp)
+    return out, time.time() - t0
+
+
+def registry_src(crate, lock="/repo/Cargo.lock"):
+    """source directory of `crate` at the version /repo's lock file pins (cargo registry, offline)"""
+    m = re.search(r'name = "%s"\nversion = "([^"]+)"' % re.escape(crate), open(lock).read())
+    if not m:
+        return None
+    base = os.path.expanduser("~/.cargo/registry/src")
+    for d in os.listdir(base):
+        cand = os.path.join(base, d, f"{crate}-{m.group(1)}", "src")
+        if os.path.isdir(cand):
+            return cand
+    return None
+
+
 class Loaded:
-    def __init__(self):
+    def __init__(self, crate="h3"):
+        if crate == "h3-quinn":
+            from . import rustenums
+            path, secs = dump_mir_quinn()
+            self.text = open(path).read()
+            self.dump_s = secs
+            self.fns = mir.parse_mir(self.text)
+            roots = ["/repo/h3/src", "/repo/h3-quinn/src"] + [(r, n) for r, n in ((registry_src("quinn"), "quinn"), (registry_src("quinn-proto"), "quinn_proto")) if r]
+            self.enums = EnumTable(rustenums.scan(tuple(roots)))
+            self.consts = NamedConsts(load_named_consts(self.text))
+            return
         path, secs = dump_mir()
         self.text = open(path).read()
         self.dump_s = secs
